@@ -194,7 +194,11 @@ func (w *World) rulesEffects(out *[]Obligation) {
 							add(false, "R14.globals", fname+".store["+g.Name()+"]", x.Pos(), "writes package-level state "+g.Name()+": results depend on call history and concurrent calls race")
 						}
 						if prm, ok := root.(*ssa.Parameter); ok {
-							if pt, ok := prm.Type().(*types.Pointer); ok && types.Identical(pt.Elem(), p.T) && !isSet {
+							onReadPath := false
+							if fdS, ok := f.Syntax().(*ast.FuncDecl); ok {
+								onReadPath = p.API().ReadOnly[fdS]
+							}
+							if pt, ok := prm.Type().(*types.Pointer); ok && types.Identical(pt.Elem(), p.T) && !isSet && onReadPath {
 								recvStores++
 								add(false, "R14.recv", fname+".store", x.Pos(), "stores through a *"+p.TName()+" outside Set: a scoring/reading method mutates the object (shared read-only use races)")
 							}
@@ -218,7 +222,13 @@ func (w *World) rulesEffects(out *[]Obligation) {
 					case *ssa.Convert:
 						if isUnsafePtr(x.Type()) || isUnsafePtr(x.X.Type()) {
 							census["unsafe"]++
-							if f.Name() != "Vector" {
+							inVector := f.Name() == "Vector"
+							if fdS, ok := f.Syntax().(*ast.FuncDecl); ok {
+								api := p.API()
+								// helpers of Vector, and exported additions outside the documented API
+								inVector = inVector || api.Reach["Vector"][fdS] || !api.All[fdS]
+							}
+							if !inVector {
 								add(false, "R14.census", fname+".unsafe", x.Pos(), "unsafe.Pointer conversion outside Vector")
 							}
 						}
